@@ -566,6 +566,13 @@ func wireAnte(p *Prog, r *Report, clause string) {
 								okSMH = true
 							}
 						}
+						// … or a field of the application that holds the tx config (app.txConfig): the receiver's static type
+						// is the SDK's client.TxConfig interface itself
+						if tv, ok := pk.TypesInfo.Types[sel.X]; ok && tv.Type != nil && strings.HasSuffix(tv.Type.String(), "cosmos-sdk/client.TxConfig") {
+							if _, isSel := sel.X.(*ast.SelectorExpr); isSel {
+								okSMH = true
+							}
+						}
 					}
 				}
 				return true
